@@ -223,14 +223,17 @@ impl FixtureDatabase {
             debug!("  Checking conftest.py at: {:?}", conftest_path);
 
             // First check if the fixture is defined directly in this conftest
-            for def in definitions.iter() {
-                if def.file_path == conftest_path && filter(def) {
-                    info!(
-                        "Found fixture {} in conftest.py: {:?}",
-                        fixture_name, conftest_path
-                    );
-                    return Some(def.clone());
-                }
+            // (the last definition wins, as in the same file)
+            if let Some(def) = definitions
+                .iter()
+                .filter(|def| def.file_path == conftest_path && filter(def))
+                .max_by_key(|def| def.line)
+            {
+                info!(
+                    "Found fixture {} in conftest.py: {:?}",
+                    fixture_name, conftest_path
+                );
+                return Some(def.clone());
             }
 
             // Then check if the conftest imports this fixture
@@ -530,13 +533,17 @@ impl FixtureDatabase {
                 // First add fixtures defined directly in the conftest
                 for entry in self.definitions.iter() {
                     let fixture_name = entry.key();
-                    for def in entry.value().iter() {
-                        if def.file_path == conftest_path
-                            && !seen_names.contains(fixture_name.as_str())
-                        {
-                            available_fixtures.push(def.clone());
-                            seen_names.insert(fixture_name.clone());
-                        }
+                    if seen_names.contains(fixture_name.as_str()) {
+                        continue;
+                    }
+                    if let Some(def) = entry
+                        .value()
+                        .iter()
+                        .filter(|def| def.file_path == conftest_path)
+                        .max_by_key(|def| def.line)
+                    {
+                        available_fixtures.push(def.clone());
+                        seen_names.insert(fixture_name.clone());
                     }
                 }
 
